@@ -117,7 +117,7 @@ structure St where
   retry   : List (Nat × Int) := []     -- per token: attempts made (Go: `f.retry.attempts`)
   obs     : List Obs := []
   causes  : List String := []
-  /-- set when the model leaves its domain (fuel, malformed program, two concurrent activations of one sub-process) -/
+  /-- set when the model leaves its domain (fuel, malformed program) -/
   outOfScope : Option String := none
 deriving Repr
 
